@@ -161,4 +161,18 @@ def run_harnesses(report, specs, classify=None, procs=None):
             else:
                 report.add(Ob(name, 'crosshair', INCONCLUSIVE, time_s=dt,
                               detail='; '.join('%s: %s' % (st, m[:160]) for st, m in msgs) or 'no conditions found'))
+    _restore_process_state()
     return report
+
+
+def _restore_process_state():
+    """classify() functions re-run harnesses in THIS process; they may leave the recording SQLite driver (with armed faults) and
+    session state behind, which a concrete tie on a real database run afterwards must not see"""
+    try:
+        import sqlite3
+        from pony.orm.dbproviders import sqlite as ps
+        from pony.orm import core
+        if type(ps.sqlite).__name__ == 'FakeModule': ps.sqlite = sqlite3
+        core.local.db2cache.clear(); core.local.db_session = None; core.local.db_context_counter = 0
+    except Exception:
+        pass
